@@ -323,9 +323,11 @@ def _write_c20_blocks():
     d = os.path.join(C.WORK, 'models')
     os.makedirs(d, exist_ok=True)
     with open(os.path.join(d, 'verif_c20_blocks.py'), 'w') as f:
-        f.write('from sequence_jacobian import simple\nCOUNT = [0]\n\ndef _tick(v):\n    COUNT[0] += 1\n    return v\n\n'
+        f.write('import numpy as np\nfrom sequence_jacobian import simple\nCOUNT = [0]\n\ndef _tick(v):\n    COUNT[0] += 1\n    return v\n\n'
                 '@simple\ndef c20_eq1(x, y, a):\n    r1 = x + 0.5 * y - 2 * a\n    return r1\n\n'
-                '@simple\ndef c20_eq2(x, y):\n    r2 = (x - y).apply(_tick) + 0.25\n    return r2\n')
+                '@simple\ndef c20_eq2(x, y):\n    r2 = (x - y).apply(_tick) + 0.25\n    return r2\n\n'
+                'LOG = []\n\ndef _logv(v):\n    LOG.append(float(v))\n    return v\n\n'
+                '@simple\ndef c20_uni(x):\n    r3 = (2 * (x.apply(_logv) - 0.3)).apply(np.arctan)      # flat away from the root at 0.3: tangent and secant steps overshoot\n    return r3\n')
     if d not in sys.path:
         sys.path.insert(0, d)
     importlib.invalidate_caches()
@@ -401,6 +403,20 @@ def check_specs():
                 bad.append('solve_steady_state with the default solver returned without hitting the targets')
         except Exception as ex:
             bad.append(f'solve_steady_state with usable scalar unknowns and no solver raised {type(ex).__name__}: {ex}')
+    # ONE bounded unknown handed to every scalar solver name, as a bracket (lb, ub) and as (lb, initial value, ub): refused, or never evaluated outside the bounds
+    if vb is not None:
+        uni = combine([vb.c20_uni], name='c20u')
+        for lb, ub in ((-0.2, 2.2), (-1.0, 3.0)):
+            for spec in ({'x': (lb, ub)}, {'x': (lb, 1.0, ub)}):
+                for sv in ('brentq', 'bisect', 'ridder', 'toms748', 'brenth', 'secant', 'newton'):
+                    del vb.LOG[:]
+                    try:
+                        uni.solve_steady_state({}, dict(spec), ['r3'], solver=sv)
+                    except Exception:
+                        pass            # refusing the specification is allowed
+                    out = [x for x in vb.LOG if x < lb - 1e-12 or x > ub + 1e-12]
+                    if out:
+                        bad.append(f'solver {sv} with the bounded unknown {spec} evaluated the model outside the bounds (x = {out[0]:.4g})')
     return [dict(what=b, input=dict(kind='specs'), signature=dict(op='specs', what=b[:40])) for b in bad]
 
 
